@@ -3,6 +3,7 @@ package props
 import (
 	"fmt"
 	"reflect"
+	"strings"
 
 	"github.com/AsaiYusuke/jsonpath"
 	"pgregory.net/rapid"
@@ -18,7 +19,19 @@ func drawC12(rt *rapid.T) *Case {
 	g := gen.NewG(rt, gen.PathOpts{Funcs: true, RootOmit: true, FuncPct: 50, OperandFuncPct: 35, LongPaths: true})
 	p := g.Path()
 	r := gen.Render(p, gen.Canon)
-	return &Case{Path: r.Text, AST: p, Texts: r.Steps, Doc: g.Doc(p), UseNumber: rapid.Bool().Draw(rt, "usenumber"), Funcs: true}
+	c := &Case{Path: r.Text, AST: p, Texts: r.Steps, Doc: g.Doc(p), UseNumber: rapid.Bool().Draw(rt, "usenumber"), Funcs: true}
+	switch gen.Uniform(rt, "dockind", 16) {
+	case 0:
+		// values that are not decoded JSON inside the document
+		c.Doc = g.Opaquify(c.Doc)
+		c.DocKind = "opaque"
+	case 1:
+		// the whole document handed over behind a pointer, inside an Accessor, as raw JSON text:
+		// not a JSON value in either mode
+		c.Doc = gen.Wrap(gen.WrapTags[gen.Uniform(rt, "rootwrap", len(gen.WrapTags))], c.Doc)
+		c.DocKind = "opaque"
+	}
+	return c
 }
 
 func containsAccessor(v interface{}) bool {
@@ -53,8 +66,12 @@ func checkC12(c *Case, st *Stats) string {
 	if plain.parseErr != nil {
 		return fmt.Sprintf("generated path was rejected by Parse: %v", plain.parseErr)
 	}
+	docHoldsAccessors := strings.Contains(docText, "Accessor") // then Accessor values are data, not a leak
+	if c.DocKind == "opaque" {
+		st.Class("doc:opaque-values")
+	}
 	for _, rc := range acc.rec.Calls {
-		if containsAccessor(rc.Arg) {
+		if !docHoldsAccessors && containsAccessor(rc.Arg) {
 			return fmt.Sprintf("in accessor mode function %s received an Accessor inside its argument %s", rc.Fn, JSONString(rc.Arg))
 		}
 	}
@@ -77,12 +94,12 @@ func checkC12(c *Case, st *Stats) string {
 			if a.Get == nil {
 				return fmt.Sprintf("accessor %d has a nil Get", i)
 			}
-			if v := a.Get(); !reflect.DeepEqual(v, plain.got[i]) {
+			if v := a.Get(); !deepSame(v, plain.got[i]) {
 				return fmt.Sprintf("accessor %d Get() = %s, plain mode value = %s", i, JSONString(v), JSONString(plain.got[i]))
 			}
 		}
 		for i := range plain.got {
-			if containsAccessor(plain.got[i]) {
+			if !docHoldsAccessors && containsAccessor(plain.got[i]) {
 				return fmt.Sprintf("plain-mode result %d contains an Accessor", i)
 			}
 		}
@@ -116,7 +133,7 @@ func checkC12(c *Case, st *Stats) string {
 			return fmt.Sprintf("Config copied from another: base (%s, %v), derived accessor (%s, %v), independent plain (%s, %v)", JSONString(gotB), eB, JSONString(gotD), eD, JSONString(plain.got), plain.err)
 		}
 		for i := range gotB {
-			if containsAccessor(gotB[i]) {
+			if !docHoldsAccessors && containsAccessor(gotB[i]) {
 				return fmt.Sprintf("SetAccessorMode on a copy of a Config switched the original to accessor mode: result %d of the original is %T", i, gotB[i])
 			}
 		}
@@ -140,7 +157,7 @@ func checkC12(c *Case, st *Stats) string {
 		noteParse(c.Path, false, false)
 		st.Eval(1)
 		st.Class("config-less call after a failed accessor-mode parse")
-		if (err == nil) != (plain.err == nil) || (err == nil && !reflect.DeepEqual(got, plain.got)) {
+		if (err == nil) != (plain.err == nil) || (err == nil && !deepSameList(got, plain.got)) {
 			return fmt.Sprintf("a call without Config right after a failed accessor-mode Parse returns (%s, %v), plain mode gives (%s, %v)", JSONString(got), err, JSONString(plain.got), plain.err)
 		}
 	}
